@@ -13,6 +13,7 @@ import (
 	"github.com/idena-network/idena-go/crypto"
 	"github.com/idena-network/idena-go/crypto/ecies"
 	"github.com/idena-network/idena-go/crypto/vrf/p256"
+	"github.com/idena-network/idena-go/rlp"
 	"github.com/idena-network/idena-go/vm/embedded"
 	"pgregory.net/rapid"
 )
@@ -512,7 +513,49 @@ func (w *World) GenTx(t *rapid.T, r *Replica, only []types.TxType) (*types.Trans
 			return c, info
 		}
 	}
+	// a genuine signature grafted onto other content: the node has seen the genuine transaction (its sender has been
+	// recovered, as on receipt) and then meets a DIFFERENT transaction carrying the same signature bytes. Nobody
+	// signed that one; whatever address its signature recovers to over the new content is not the genuine signer.
+	if rapid.IntRange(0, 39).Draw(t, "graftedSignature") == 0 {
+		types.Sender(signed)
+		c := WireCopyTx(signed)
+		switch rapid.IntRange(0, 3).Draw(t, "graftedContent") {
+		case 0:
+			c.Amount = new(big.Int).Add(c.AmountOrZero(), big.NewInt(1))
+		case 1:
+			a := w.Actors[rapid.IntRange(0, len(w.Actors)-1).Draw(t, "graftedTo")].Addr
+			if c.To != nil && *c.To == a {
+				c.Amount = new(big.Int).Add(c.AmountOrZero(), big.NewInt(1))
+			}
+			c.To = &a
+		case 2:
+			c.AccountNonce++
+		default:
+			c.Payload = append(append([]byte{}, c.Payload...), 1)
+		}
+		info.Hostile = "grafted-signature"
+		return c, info
+	}
 	return signed, info
+}
+
+// TrueSigner recovers the signer of tx from its content and signature bytes alone (no per-object or shared cache of
+// the repository involved): the address whose key produced the signature over THIS content.
+func TrueSigner(tx *types.Transaction) (common.Address, error) {
+	var h common.Hash
+	if tx.UseRlp {
+		h = rlp.Hash([]interface{}{tx.AccountNonce, tx.Epoch, tx.Type, tx.To, tx.Amount, tx.MaxFee, tx.Tips, tx.Payload})
+	} else {
+		h = crypto.SignatureHash(tx)
+	}
+	pub, err := crypto.Ecrecover(h[:], tx.Signature)
+	if err != nil {
+		return common.Address{}, err
+	}
+	if len(pub) == 0 || pub[0] != 4 {
+		return common.Address{}, fmt.Errorf("invalid public key")
+	}
+	return crypto.PubKeyBytesToAddress(pub)
 }
 
 // plausibleSender says whether a tx of this type from a is likely to pass the
